@@ -1,11 +1,16 @@
 pub mod h_c06;
 pub mod h_c16;
+pub mod h_c19;
 pub mod sym;
 
 pub fn dispatch(name: &str) -> bool {
     match name {
         "h_c06::merge_pair" => h_c06::merge_pair(),
         "h_c16::diff_roundtrip" => h_c16::diff_roundtrip(),
+        "h_c19::order_triple" => h_c19::order_triple(),
+        "h_c19::order_pair" => h_c19::order_pair(),
+        "h_c19::print_parse" => h_c19::print_parse(),
+        "h_c19::digest_pure" => h_c19::digest_pure(),
         _ => return false,
     }
     true
